@@ -6,7 +6,7 @@ reference against which analysis/equiv.py compares a function when a rule does n
 import gzip, importlib, json, os, sys, time
 VERIF = os.path.dirname(os.path.dirname(os.path.abspath(__file__)))
 sys.path.insert(0, os.path.join(VERIF, 'analysis'))
-import facts as F, report, equiv, main as M   # noqa
+import facts as F, report, equiv, rename, main as M   # noqa
 
 
 def main():
@@ -48,6 +48,7 @@ def main():
                 print('  not self-equivalent (dropped): %s: %s' % (fn, why))
                 continue
             out[fn] = s
+        out['#meta'] = rename.meta_of(fx)
         with gzip.open(equiv.ref_file(cfg), 'wt') as fh:
             json.dump(out, fh, separators=(',', ':'))
         print('%s: %d functions summarised (%d not summarisable) in %.1fs -> %s' % (cfg, len(out), none, time.time() - t0, equiv.ref_file(cfg)))
